@@ -163,6 +163,8 @@ def bytes_pool(mname, pname):
     """typed byte arguments: an IBTP, the structured extras of the Manage callbacks, plain text, empty"""
     ibtp_req2 = ["ibtp", {"from": FULL_A, "to": FULL_B, "index": 2, "type": 0}]
     ibtp_rcpt = ["ibtp", {"from": FULL_A, "to": FULL_B, "index": 1, "type": 1}]
+    if mname == "InvokeInterchain":
+        return [["ibtp", {"from": FULL_B, "to": FULL_A, "index": 1, "type": 0, "payload": True}], ibtp_req2, ["b", "junk"]]
     if pname in ("input", "data") or mname in ("HandleIBTPData", "InvokeInterchain", "InvokeReceipt"):
         return [ibtp_req2, ibtp_rcpt, ["b", "junk"]]
     if pname == "extra" and mname == "Manage":
